@@ -1008,8 +1008,8 @@ func (t *tScreen) showCursor() {
 		if t.cursorColor == ColorReset {
 			t.TPuts(t.cursorFg)
 			t.cursorColorSent = false
-		} else if t.cursorColor.Valid() {
-			r, g, b := t.cursorColor.RGB()
+		} else if r, g, b := t.cursorColor.RGB(); t.cursorColor.Valid() && r >= 0 {
+			// (a palette index without an RGB value has nothing to send)
 			t.TPuts(t.ti.TParm(t.cursorRGB, int(r), int(g), int(b)))
 			t.cursorColorSent = true
 		}
